@@ -1,3 +1,4 @@
+import SdbModel.Generated.TableParams
 import SdbModel.Lemmas.Table
 
 /-!
@@ -352,5 +353,10 @@ example : assignedRevs t0 opsEx = [1, 2, 3, 4] ∧ (run t0 opsEx).rev = 4 ∧
 example : Reach (((newDB.step (.beginW true true)).step (.modify 1 0 oB false)).step .commit) :=
   Reach.step _ (Reach.step _ (Reach.step _ Reach.init (DB.bounded_of_boundedB _ (by decide)))
     (DB.bounded_of_boundedB _ (by decide))) (DB.bounded_of_boundedB _ (by decide))
+
+/-- the structural facts about write_txn.go, graveyard.go, iterator.go and deletetracker.go that
+    `Model.Table` builds in — where revisions are allocated and restored — hold of the source as it is today (regenerated by
+    `tools/extract` on every run) -/
+theorem C09_source_facts : Gen.tableFacts = Tbl.expectedFacts := by decide
 
 end Sdb
